@@ -87,6 +87,11 @@ def run(ctx, scn):
                 os.utime(dirs[a], (m, m))
             elif cmd == "setpath":
                 set_path(st["path"])
+            elif cmd == "relink":
+                lp = os.path.join(root, "L")
+                tgt = "D2" if os.readlink(lp) == "D1" else "D1"
+                os.remove(lp)
+                os.symlink(tgt, lp)
             elif cmd == "locate":
                 pathstr = os.pathsep.join(env["PATH"])
                 obs["loc"] = which_dir(locate_executable(NAME))
